@@ -145,7 +145,7 @@ def main():
   pytd_utils.CanonicalOrdering = _hooked
   scratch = job.get("scratch") or os.path.join(common.BUILD, "c04")
   os.makedirs(scratch, exist_ok=True)
-  out_path = os.path.join(scratch, "out_%d.pickled" % os.getpid())
+  out_path = sys.argv[1] + ".pickled"      # next to the job file; the parent removes it with the job
   progs = {p["id"]: p["src"] for p in job["programs"]}
   shared = None
   for w in job.get("warmup", []):
